@@ -30,7 +30,8 @@ const memHuge = 1 << 30
 // ---------------------------------------------------------------- transaction programs and histories
 
 // txOp: G get, S set, D delete. A program ends with Commit (End "C") or Discard ("X");
-// "E" = Update whose closure returns an error after its operations.
+// "E" = Update whose closure returns an error after its operations; "P" = Update whose closure panics after them
+// (the caller recovers).
 type txOp struct {
 	Op string
 	K  string
